@@ -294,7 +294,7 @@ def shards(tier, seed):
     out = [dict(kind='fixed')]
     for k in range(15):
         out.append(dict(kind='hyp', seed=seed * 1000 + k,
-                        n=110 if tier == 'quick' else 1500))
+                        n=110 if tier == 'quick' else 5000))
     return out
 
 
